@@ -65,6 +65,8 @@ import E3nnVerif.Generated.LIN.X023
 import E3nnVerif.Generated.LIN.X024
 import E3nnVerif.Generated.LIN.X025
 import E3nnVerif.Generated.LIN.X026
+import E3nnVerif.Generated.LIN.X027
+import E3nnVerif.Generated.LIN.X028
 import E3nnVerif.Generated.LIN.R000
 import E3nnVerif.Generated.LIN.R001
 import E3nnVerif.Generated.LIN.R002
@@ -142,6 +144,8 @@ def registry : List (String × Cfg × List Node) := [
   ("X024", X024.cfg, X024.prog),
   ("X025", X025.cfg, X025.prog),
   ("X026", X026.cfg, X026.prog),
+  ("X027", X027.cfg, X027.prog),
+  ("X028", X028.cfg, X028.prog),
   ("R000", R000.cfg, R000.prog),
   ("R001", R001.cfg, R001.prog),
   ("R002", R002.cfg, R002.prog),
